@@ -39,3 +39,37 @@ Proof.
     + cbn [firstn recognisers]. repeat apply Forall_cons; try apply Forall_nil; cbn [snd]; cbn; try lia; destruct (r ++ c :: rest) as [|? ?]; cbn; lia.
   - constructor.
 Qed.
+
+(* ---------------------------------------------------------------------------------------- *)
+(* keywords of the document frame                                                            *)
+(* ---------------------------------------------------------------------------------------- *)
+Lemma rec_type rest : rec_at TYPE (lit "type") (32 :: rest).
+Proof. split; [destruct rest as [|? [|? ?]]; vm_compute; reflexivity|split; [discriminate|reflexivity]]. Qed.
+Lemma rec_relations rest : rec_at RELATIONS (lit "relations") (10 :: rest).
+Proof. split; [destruct rest as [|? [|? ?]]; vm_compute; reflexivity|split; [discriminate|reflexivity]]. Qed.
+Lemma rec_model rest : rec_at MODEL (lit "model") (10 :: rest).
+Proof. split; [destruct rest as [|? [|? ?]]; vm_compute; reflexivity|split; [discriminate|reflexivity]]. Qed.
+Lemma rec_schema rest : rec_at SCHEMA (lit "schema") (32 :: rest).
+Proof. split; [destruct rest as [|? [|? ?]]; vm_compute; reflexivity|split; [discriminate|reflexivity]]. Qed.
+Lemma rec_define' rest : rec_at DEFINE (lit "define") (32 :: rest).
+Proof. split; [destruct rest as [|? [|? ?]]; vm_compute; reflexivity|split; [discriminate|reflexivity]]. Qed.
+
+(* the schema versions in use *)
+Definition std_version (v : str) : bool := str_eqb v (lit "1.0") || str_eqb v (lit "1.1") || str_eqb v (lit "1.2").
+(* end of input, or a line feed *)
+Definition nl_next (rest : str) : Prop := match rest with [] => True | c :: _ => c = 10 end.
+Lemma nl_next_delim rest : nl_next rest -> delim_next rest.
+Proof. destruct rest as [|c r]; [exact (fun _ => I)|]. cbn. intros ->. reflexivity. Qed.
+
+Lemma str_eqb_eq a b : str_eqb a b = true -> a = b.
+Proof.
+  revert b. induction a as [|x a IH]; intros [|y b] H; cbn in H; try discriminate; [reflexivity|].
+  apply andb_prop in H. destruct H as [H1 H2]. apply N.eqb_eq in H1. subst y. f_equal. apply IH. exact H2.
+Qed.
+
+Lemma rec_version v rest : std_version v = true -> nl_next rest -> rec_at SCHEMA_VERSION v rest.
+Proof.
+  intros Hv Hr. unfold std_version in Hv. apply orb_prop in Hv. destruct Hv as [Hv|Hv]; [apply orb_prop in Hv; destruct Hv as [Hv|Hv]|];
+    apply str_eqb_eq in Hv; subst v; (destruct rest as [|c rest]; [|cbn in Hr; subst c]);
+    (split; [try (destruct rest as [|? [|? ?]]); vm_compute; reflexivity|split; [discriminate|reflexivity]]).
+Qed.
